@@ -109,8 +109,32 @@ func checkBehaviour(t *fw.T, src string, layout string, cfgs []Cfg) {
 		got := res[i+1]
 		t.Count("disagreements_checked", len(o.cfgs))
 		if got.Completion == "timeout" {
-			t.Inconclusive("compiled program hit the engine's time backstop", "")
-			continue
+			// The 1.5 s backstop is wall clock and may fire on a loaded machine. Programs are terminating by construction
+			// (a few hundred loop iterations at most), so the pair is run once more, alone, with a 10 s limit: an output
+			// that still does not finish while its source does is a behaviour difference (and has to reproduce a third
+			// time in the fresh-process re-check before it is reported); anything else stays inconclusive.
+			// (at most 6 such long re-runs per worker process: a change that makes many outputs loop is established by the
+			// first few, the rest are counted as inconclusive so that the run itself stays bounded)
+			n, _ := t.W.State["c01-slow-reruns"].(int)
+			if n >= 6 {
+				t.Inconclusive("compiled program hit the engine's time backstop (long re-run budget of this worker used up)", "")
+				continue
+			}
+			t.W.State["c01-slow-reruns"] = n + 1
+			slow, err := engine(t).Run([]string{src, o.code}, 10000)
+			if err == nil && len(slow) == 2 && sameRun(slow[0], ref) && slow[1].Completion == "timeout" {
+				w := wit()
+				w["config"] = o.cfgs[0].String()
+				w["output"] = o.code
+				w["source_run"] = describeRun(ref)
+				t.Violate("behaviour-differs", cfgClass(o.cfgs[0])+"/output does not terminate", fmt.Sprintf("%s output does not terminate within 10 s although the source completes (%s)", o.cfgs[0], describeRun(ref)), w)
+				continue
+			}
+			if err != nil || len(slow) != 2 || slow[1].Completion == "timeout" || slow[0].Completion == "timeout" {
+				t.Inconclusive("compiled program hit the engine's time backstop", gen.Describe(src)+" ==> "+clip(o.code, 300))
+				continue
+			}
+			got = slow[1]
 		}
 		if sameRun(ref, got) {
 			continue
